@@ -28,6 +28,8 @@ func checkC09(p *Prog, r *Report) {
 	// missing-value sentinel left in that series gives negative gross photosynthesis and a negative assimilate pool
 	// (shared with C04.R8 / C08.R8)
 	sentinelFallback(p, r, "C09.R8")
+	// the perennial and legume flags, stage sums and partitioning tables of a YAML parameter set reach the fields they are named after (shared with C13.yaml-keys)
+	yamlKeysRule(p, r, "C09.R9", []string{"CropParam", "CropDevelopmentStage"})
 	r.Note("not decided: finiteness and non-negativity of masses over whole growing seasons (multi-day state), phenology in calendar terms, anything about shipped parameter values")
 }
 
